@@ -25,7 +25,7 @@ CLS_COQ = {py: cq for cq, py in CLASSES}
 POSITIONS = [("PSelect", "select"), ("POn", "on"), ("PWhere", "where"), ("PGroup", "group"), ("PHaving", "having"),
              ("POrder", "order"), ("PValues", "values")]
 KNOWN_KW = {"quote_char", "secondary_quote_char", "alias_quote_char", "as_keyword", "dialect", "with_alias",
-            "with_namespace", "subquery", "subcriterion", "groupby_alias"}
+            "with_namespace", "subquery", "subcriterion", "groupby_alias", "query_alias_quote_char"}
 
 
 def qclass(py):
@@ -194,6 +194,11 @@ def _ctx_of_kwargs(kw):
     if extra:
         raise RuntimeError("keyword arguments the model does not know reach get_sql: %r" % sorted(extra))
     d = kw.get("dialect")
+    # query_alias_quote_char (the quote of SUB-QUERY aliases, a convention of the outermost class) has no field in the shared
+    # ctx: Terms.v's TSub quotes its alias with quote_char, which is what every class amounts to ('' or the quote_char itself)
+    if (kw.get("query_alias_quote_char") or kw.get("quote_char") or "") != (kw.get("quote_char") or ""):
+        raise RuntimeError("query_alias_quote_char %r differs from quote_char %r: TSub's alias quote is no longer modelled"
+                           % (kw.get("query_alias_quote_char"), kw.get("quote_char")))
     return {"q": kw.get("quote_char"), "sq": kw.get("secondary_quote_char", "'"), "aq": kw.get("alias_quote_char"),
             "askw": bool(kw.get("as_keyword", False)), "dia": None if d is None else d.value,
             "wa": bool(kw.get("with_alias", False)), "wn": bool(kw.get("with_namespace", False)),
@@ -820,19 +825,18 @@ def judge_query(spec, text, env, out):
         tail_at = find_top(text, " ORDER BY ", pos) if spec.get("orderby") else -1
         ends = [c[0] for c in cuts] + [tail_at if tail_at != -1 else len(text)]
         starts = [0] + [c[1] for c in cuts]
-        mixed = len({b["cls"] for b in branches if b["k"] == "sel"}) > 1
+        # a set operation takes every rendering default from its base query (alias conventions, Oracle/MSSQL GROUP BY switch)
+        # and hands them to all its operands, whatever their class
+        benv = dict(env, top=False)
+        if root_cls(spec) in NO_GROUP_ALIAS and env["group_ref"] is True:
+            benv["group_ref"] = None
+        mixed = False
         for b, s0, e0 in zip(branches, starts, ends):
             bt = text[s0:e0]
             if bt.startswith("("):
                 bt, rest = strip_parens(bt)
                 if rest.strip():
                     raise Unreadable("text after a set-operation branch: %r" % rest)
-            if mixed:      # operands of different classes: each fills in its own defaults; judged as a statement of its own class
-                bc = root_cls(b)
-                own = env.get("top") or env["group_ref"] is True      # a root set operation hands nothing down to its operands
-                benv = {"conv": None, "group_ref": (bc not in NO_GROUP_ALIAS) if own else env["group_ref"], "top": False}
-            else:
-                benv = dict(env, top=False)
             judge_query(b, bt, benv, out)
         if spec.get("orderby"):
             if tail_at == -1:
